@@ -79,6 +79,34 @@ def parseReqs (s : String) : Option (List Req) :=
       pure { log := lg, uri := uri, wrap := wrap }
     | _ => none
 
+def unhexList (s : String) : Option (List Str) :=
+  if s == "-" then some [] else (s.splitOn ",").mapM unhex
+
+def parseNsxLogin (s : String) : Option NsxLogin :=
+  match s.splitOn ":" with
+  | ["terr", m, _] => (unhex m).map .terr
+  | ["resp", st, code] => do
+    let st ← unhex st
+    let code ← unhex code
+    let n ← (String.ofList code).toNat?
+    pure (.resp st n)
+  | _ => none
+
+/-- requests: `op:method:path:log:before,before:after,after` separated by `;` -/
+def parseNsxReqs (s : String) : Option (List NsxReq) :=
+  if s == "-" then some [] else
+  (s.splitOn ";").mapM fun r =>
+    match r.splitOn ":" with
+    | [op, method, path, lg, before, after] => do
+      let op ← unhex op
+      let method ← unhex method
+      let path ← unhex path
+      let before ← unhexList before
+      let after ← unhexList after
+      let lg ← match lg with | "login" => some Log.login | "config" => some Log.config | "change" => some Log.change | _ => none
+      pure { op := op, method := method, path := path, log := lg, before := before, after := after }
+    | _ => none
+
 def answer (line : String) : String :=
   match splitTab line with
   | cmd :: args =>
@@ -90,6 +118,12 @@ def answer (line : String) : String :=
         match unhex addr, unhex user, unhex pass, unhex name, unhex ip, parseReplies kg, unhex key, parseReqs reqs, parseReplies reps with
         | some addr, some user, some pass, some name, some ip, some [kg], some key, some reqs, some reps =>
           showSinks (panosRun addr user pass name ip kg key reqs reps)
+        | _, _, _, _, _, _, _, _, _ => "bad-input"
+      | "nsx", [pre, user, pass, token, cookie, name, login, reqs, reps] =>
+        match unhex pre, unhex user, unhex pass, unhex token, unhex cookie, unhex name, parseNsxLogin login,
+            parseNsxReqs reqs, parseReplies reps with
+        | some pre, some user, some pass, some token, some cookie, some name, some login, some reqs, some reps =>
+          showSinks (nsxRun pre user pass token cookie name login reqs reps)
         | _, _, _, _, _, _, _, _, _ => "bad-input"
       | _, _ => "bad-input"
     | some as =>
